@@ -13,6 +13,12 @@ import Driver.Util
 Output: `parse-error` | `crash` | `unsupported` | `missing-run` |
 `<index>:<verdict>,… exit=<status>` with the verdicts of `showVerdict` (`success`,
 `malformed_output`, `invalid_exit_code:<actual>:<expected>`, `skipped`), an empty list as `-`.
+
+`testcram <doc> <sruns> [<case>]`  the same for a Cram document (`scrut test -r json doc.t`), and
+`testdocc <doc> <sruns> [<case>]`  for a Markdown document under `--cram-compat`: both are run by the
+single-script executor.  `sruns` is `-` or `,`-separated `<stdout hex>:<stderr hex>:<exit code>[:x]`;
+a trailing `:x` says that the command of the test LEAVES the shell (`exit N`, the script ends there).
+Additional output: `exec-error` (exit status 1, nothing reported: the executor gave up).
 -/
 open Scrut Scrut.TestRun
 namespace Driver.TestRunOps
@@ -36,6 +42,7 @@ def showResult : Result → String
   | .crash => "crash"
   | .unsupported => "unsupported"
   | .missingRun => "missing-run"
+  | .execError => "exec-error"
   | .report outcomes exit =>
     let os := if outcomes.isEmpty then "-" else ",".intercalate (outcomes.map (fun (i, v) => s!"{i}:{showVerdict v}"))
     s!"{os} exit={exit}"
@@ -51,6 +58,33 @@ def opTestDoc (args : List String) : String :=
   -- a third field names the generated case (`<seed>.<index>`) for the harness' replay; not an input of the model
   | [doc, runs, _case] => testDocOf doc runs
   | _ => "bad-op"
+
+def parseSRun (s : String) : Option SRan :=
+  match s.splitOn ":" with
+  | [o, e, c] => (parseRun s!"{o}:{e}:{c}").map (fun r => ⟨r, false⟩)
+  | [o, e, c, "x"] => (parseRun s!"{o}:{e}:{c}").map (fun r => ⟨r, true⟩)
+  | _ => none
+
+def parseSRuns (s : String) : Option (List SRan) :=
+  if s == "-" then some [] else (s.splitOn ",").mapM parseSRun
+
+def scriptDocOf (f : Bytes → List SRan → Result) (doc runs : String) : String :=
+  match unhex doc, parseSRuns runs with
+  | some doc, some runs => showResult (f doc runs)
+  | _, _ => "bad-op"
+
+def opScriptDoc (f : Bytes → List SRan → Result) (args : List String) : String :=
+  match args with
+  | [doc, runs] => scriptDocOf f doc runs
+  -- a third field names the generated case (`<seed>.<index>`) for the harness' replay; not an input of the model
+  | [doc, runs, _case] => scriptDocOf f doc runs
+  | _ => "bad-op"
+
+/-- `testcram`: a Cram document -/
+def opTestCram (args : List String) : String := opScriptDoc testCramDocumentBytes args
+
+/-- `testdocc`: a Markdown document under `--cram-compat` -/
+def opTestDocCompat (args : List String) : String := opScriptDoc testDocumentCompatBytes args
 
 /-- `lossy <hex>`: `String::from_utf8_lossy`, the result UTF-8 encoded in hex -/
 def opLossy (args : List String) : String :=
